@@ -38,17 +38,35 @@ CHECKS = {
  "C11": dict(level="exploration", design="§3 C11",
    text="Structural invariant of the stored output log (contiguity, strictly increasing L2 blocks, monotone L1 times, final prefix, suffix-only deletion, agreement with a reference list) read through the paginated queries after every step of random propose/delete/re-propose histories with off-by-one indices and L2 blocks.",
    note=TB, technique="runtime structural-invariant monitor at quiescent points"),
+ "C12": dict(level="exploration", design="§3 C12",
+   text="Authorization-matrix oracle: in each state reached by random role rotations every permissioned message type (8 on L1, 8 on L2) is built valid in every other respect, its proto-declared signer checked to be the candidate, and delivered on a branch for every candidate signer (authority, current and past holders, same role on another bridge, admin, strangers); success must equal the role table's verdict and every message type must be seen succeeding for a legitimate holder. Plus MsgExecuteMessages all-or-nothing cases and bridge-binding mutations.",
+   note=TB, technique="runtime authorization-matrix oracle (role table vs probe on branched state)"),
  "C13": dict(level="exploration", design="§3 C13",
    text="Engine/state agreement monitor: the real CometBFT ValidatorSet accumulates every batch returned by InitGenesis/EndBlocker and is compared after every block with the positive-power validators in state and the recorded last powers; index bijection, capacity, removal-by-end-of-block and per-height history are checked; memoised bounded-exhaustive DFS over add/remove/end-block/max/retention from three genesis sets plus random longer histories.",
    note=TB+" Engine oracle: cometbft v0.38.12. An engine refusal because every validator was removed ends the history without alarm. Pruning asserted only when retention was never 0.", technique="runtime differential monitor against the real consensus-engine validator set over bounded-exhaustive DFS"),
  "C14": dict(level="exploration", design="§3 C14",
    text="Same engine monitor around plan heights: every plan class (new/known operator x new/own/foreign key) x executor lists x max validators x mid-block operation applied to every validator-set state reachable within the depth bound; engine set, state and executors read at h-1, h, h+1; malformed plans must be rejected leaving the plan table untouched. Two classes of plans are recorded as known findings with explicit (class, clause) signatures.",
    note=TB+" Plan table is process memory, snapshotted/restored around scenarios.", technique="runtime differential monitor against the real consensus-engine validator set over enumerated plan classes x reachable states"),
- "C17": dict(level="exploration", design="§3 C17",
+ "C15": dict(level="exploration", design="§3 C15",
+   text="Quorum oracle computed from the harness's own knowledge of every key in the extended commits it generates (21 attack kinds x 9 power vectors around the 2/3 line, sequences with equal/older/newer timestamps, oracle flag toggles, host-set refreshes): any price or timestamp change must be backed by distinct host validators with >= 2/3 power that each supplied a decodable price in a commit-flagged entry carrying their own valid signature; timestamps strictly increase; host set only replaced by a higher height from the configured client.",
+   note=TB+" Connect's codecs and ed25519 are trusted to build the adversarial commits; necessary-condition direction only.", technique="runtime quorum oracle over adversarially generated inputs"),
+ "C16": dict(level="exploration", design="§3 C16",
+   text="For states sampled along random histories of both modules: ValidateGenesis(Export), JSON round trip, InitGenesis on a fresh chain, byte comparison of the re-export, engine check of the L2 import's validator updates, and a lock-step probe script of 60-150 messages and queries whose transcripts on the original and the re-imported chain must be identical.",
+   note=TB+" Host validator snapshot and per-height history are excluded as the statement says.", technique="runtime differential execution (original vs re-imported chain) + round-trip equality"),
+ "C17": dict(level="exploration", design="§3 C17", thorough_extra=" --race",
    text="Differential monitor: every exported commitment/identifier function is compared, on lattice and random inputs, with an independent from-scratch Keccak/ADR-028 implementation that is itself pinned to python-hashlib vectors; purity is observed with canary arenas around every argument under four memory layouts of the proof list, at function level and through the real MsgFinalizeTokenWithdrawal handler. Held-on-observed-executions, not a proof.",
    note="Trusts python3 hashlib (vectors generated once, committed), Go's memory model for the canary arenas; hash collisions not searched.",
    technique="differential runtime monitor + memory canaries (race/checkptr build in thorough)",
-   thorough_extra=""),
+   ),
+ "C18": dict(level="exploration", design="§3 C18", thorough_extra=" --race",
+   text="N independent replicas (4 quick, 16 thorough; half sequential, half concurrent goroutines, thorough under the Go race detector) execute the same seeded histories (two-chain bridge traffic, validator bursts with >=3 removals per block and change plans, 7-validator x 6-pair oracle updates, 4-bridge world with export/re-import); complete transcripts (responses, full error strings, gas, events and validator updates in order, store digest per block, exports) are compared line by line.",
+   note=TB+" Each replica is an independent draw of Go's map iteration orders and runs at a different wall-clock time; detection of an unsorted 3-element iteration has probability 1-(1/6)^(N-1) per order-sensitive step.", technique="runtime replica comparison + Go race detector"),
+ "C19": dict(level="exploration", design="§3 C19",
+   text="Reference model of the grant rule compared with the permission table after every operation of random create / update-metadata / update-challenger histories through the real ophost message path and the real hook.BridgeHook, over a hostile metadata corpus and changing channel states.",
+   note=TB+" Channel and permission keepers are in-store stand-ins for the IBC modules.", technique="runtime reference-model monitor over random histories and a hostile input corpus"),
+ "C20": dict(level="exploration", design="§3 C20",
+   text="Arithmetic oracle in exact rationals for the fee floor (two-sided for gas>0), direct predicates for the system and free lane matchers on generated message shapes and whitelist combinations, and the sequence model for the redundant-relay filter, each across CheckTx/ReCheckTx/DeliverTx/simulate modes.",
+   note=TB+" For gas = 0 only the stated 'only if' direction is asserted.", technique="runtime differential oracle (exact-rational arithmetic, shape predicates) over generated inputs"),
 }
 def main():
     fixed = []
@@ -67,7 +85,7 @@ def main():
             "level_note": c["note"],
             "technique": c["technique"],
         })
-    na = [{"property_id": p, "reason": "check not built yet in this round (planned; see DESIGN.md §3) - runtime monitoring is applicable"} for p in ALL if p not in CHECKS]
+    na = [{"property_id": p, "reason": "check not built yet (runtime monitoring is applicable; see DESIGN.md §3)"} for p in ALL if p not in CHECKS]
     m = {
       "version": 1,
       "setup_cmd": "bin/setup",
